@@ -147,6 +147,8 @@ def shim_isinstance(obj, cls):
 def shim_len(x):
     if isinstance(x, SRange):
         return x.length()
+    if hasattr(x, "__slen__"):          # proxy containers with a symbolic size
+        return x.__slen__()
     return builtins.len(x)
 
 
